@@ -26,7 +26,7 @@ def run(tier, seed, replay=None):
         return r.finish(RULE, write=False)
     cfg = "MC_BufferQueue.cfg" if tier == "quick" else "MC_BufferQueue_thorough.cfg"
     cases = os.path.join(WORK, "traces", "C13-mc-cases.ndjson")
-    res = core.tlc_mc("C13-mc", "MC_BufferQueue.tla", cfg, replay_out=cases, timeout=3000)
+    res = core.tlc_mc("C13-mc", "MC_BufferQueue.tla", cfg, replay_out=cases, timeout=3000, coverage=True)
     r.add_mc(cfg, res)
     if res["ok"]:
         parts, n = core.split_file(cases, core.NCPU)
